@@ -69,7 +69,9 @@ def substitute(ph_source: str, delims: list):
         while start != -1:
             if (start, i) not in intended:
                 same_text_other_role = any(s == start and delims[j] == d for s, _e, j in spans if j >= 0)
-                in_marker = any(s <= start and start + len(d) <= e for s, e in marker_spans)
+                # the liquid-tag comment marker is derived from the comment start delimiter (index 4): only that
+                # delimiter may legitimately occur inside it; for any other delimiter the marker is template text
+                in_marker = i == 4 and any(s <= start and start + len(d) <= e for s, e in marker_spans)
                 if not same_text_other_role and not in_marker:
                     return src, True
             start = src.find(d, start + 1)
@@ -126,7 +128,14 @@ def eval_rewrite(case) -> Verdict:
     datas = [gd.decode(x) for x in case["datas"]]
     results = []
     for d, m in zip((d1, d2), srcs):
-        env = envs.make_env(cfg_for(d), {k: s for k, s in m.items() if k != "main"})
+        made = oc.outcome_of(lambda: envs.make_env(cfg_for(d), {k: s for k, s in m.items() if k != "main"}))  # noqa: B023
+        if made[0] != "ok":
+            v.fail(
+                f"rewrite:environment-raises:{made[1]}",
+                f"Environment(...) with delimiters {d} raised {oc.short(made)!r:.200} (the delimiters collide neither with each other nor with the template)",
+            )
+            return v
+        env = made[1]
         row = []
         p = oc.outcome_of(lambda: env.from_string(m["main"]))  # noqa: B023
         if p[0] != "ok":
@@ -199,6 +208,7 @@ TEMPLATES = [
     f"{T.os} nosuchvar {T.oe}{T.os} a | nosuchfilter {T.oe}",
     "{{ a }}{% if b %}B{% endif %}<< a >>${ a }[[ a ]]",
     f"{T.ts} include 'p' {T.te}",
+    f"{T.ts} echo a {T.te}|{T.ts} if b {T.te}{T.ts} echo 'in' {T.te}{T.ts} endif {T.te}",
 ]
 DATAS = [{"a": "A1", "b": True}, {"a": 2, "b": False}]
 PARTIAL = f"P{T.os} a {T.oe}"
@@ -226,10 +236,30 @@ def _mytag_class():
     return MyTag
 
 
+def _loud_echo_class():
+    """A replacement for a built-in tag under its own name."""
+    from liquid.builtin.tags.echo_tag import EchoNode
+    from liquid.builtin.tags.echo_tag import EchoTag
+
+    class LoudEchoNode(EchoNode):
+        def render_to_output(self, context, buffer):
+            buffer.write("<<")
+            n = super().render_to_output(context, buffer)
+            buffer.write(">>")
+            return n
+
+    class LoudEchoTag(EchoTag):
+        node_class = LoudEchoNode
+
+    return LoudEchoTag
+
+
 def build_env(ecfg: dict):
     delims = POOL[ecfg["delims"]]
     partial_src, _ = substitute(PARTIAL, delims)
-    env = envs.make_env(cfg_for(delims, mode=ecfg["mode"], extra=ecfg["extra"], twice=False), {"p": partial_src})
+    cfg = cfg_for(delims, mode=ecfg["mode"], extra=ecfg["extra"], twice=False)
+    cfg.pop("flags", None)  # plain Environment instances of one and the same class (make_env subclasses when flags are set)
+    env = envs.make_env(cfg, {"p": partial_src})
     return env
 
 
@@ -259,7 +289,11 @@ def run_history(envcfgs: list, ops: list, only: int | None = None) -> dict:
         if only is not None and e != only:
             continue
         if kind == "create":
-            live[e] = build_env(envcfgs[e])
+            made = oc.outcome_of(lambda: build_env(envcfgs[e]))  # noqa: B023
+            if made[0] == "ok":
+                live[e] = made[1]
+            else:
+                out[idx] = oc.short(made)  # (construction failures are judged by the rewrite relation)
             continue
         env = live.get(e)
         if env is None:
@@ -268,6 +302,8 @@ def run_history(envcfgs: list, ops: list, only: int | None = None) -> dict:
             env.add_filter("twice", envs.TwiceFilter())
         elif kind == "add_tag":
             env.add_tag(_mytag_class())
+        elif kind == "replace_tag":
+            env.add_tag(_loud_echo_class())
         elif kind == "parse":
             _, _, tid, slot = op
             src, collide = substitute(TEMPLATES[tid], POOL[envcfgs[e]["delims"]])
@@ -445,7 +481,11 @@ def history_cases(draw):
     r = core.rng(draw)
     k = r.choice([2, 2, 3, 4])
     envcfgs = [{"delims": r.randrange(len(POOL)), "mode": r.choice(["strict", "strict", "lax"]), "extra": r.random() < 0.7} for _ in range(k)]
-    if r.random() < 0.5:
+    twins = r.random() < 0.25
+    if twins:
+        # identically configured environments that differ only in what is registered on them afterwards
+        envcfgs[1] = dict(envcfgs[0])
+    elif r.random() < 0.6:
         # near-identical configurations: the likeliest victims of a cache-key mistake
         envcfgs[1] = dict(envcfgs[0])
         which = r.choice(["delims", "mode", "extra"])
@@ -460,6 +500,10 @@ def history_cases(draw):
     body = []
     # a history works on one to three templates, so that different environments meet on the same source text
     tids = r.sample(range(len(TEMPLATES)), r.choice([1, 2, 2, 3]))
+    if twins:
+        what = r.choice(["replace_tag", "replace_tag", "add_tag", "add_filter"])
+        body.append([what, r.choice([0, 1])])
+        tids = [{"replace_tag": len(TEMPLATES) - 1, "add_tag": 3, "add_filter": 2}[what], *tids[:1]]
     for _ in range(r.randint(4, 14)):
         e = r.randrange(k)
         c = r.random()
@@ -467,10 +511,12 @@ def history_cases(draw):
             body.append(["parse", e, r.choice(tids), r.randrange(3)])
         elif c < 0.85:
             body.append(["render", e, r.randrange(3), r.randrange(len(DATAS))])
-        elif c < 0.93:
+        elif c < 0.91:
             body.append(["add_filter", e])
-        else:
+        elif c < 0.96:
             body.append(["add_tag", e])
+        else:
+            body.append(["replace_tag", e])
     # creation may be late: interleave the remaining creates into the body
     first = ops.pop(0)
     for op in ops:
@@ -509,9 +555,10 @@ def finish_kwargs(ctx: core.Ctx, tier: str) -> dict:
             "looks like default delimiters under custom delimiters and compares with the default-delimiter original "
             "holding same-length stand-ins. (b) Histories of 5-18 operations over 2-4 environments (10 delimiter "
             "sets incl. pairs sharing tag or statement delimiters, strict/lax, extra on/off; half of the histories "
-            "use two configurations differing in one field; each history works on 1-3 of 13 templates so that "
+            "use two configurations differing in one field, a quarter two identical ones of which one gets a tag or filter "
+            "added or replaced; each history works on 1-3 of 13 templates so that "
             "environments meet on the same source text): create, parse a template into a slot, render a "
-            "slot, add a filter, add a tag. Every result must equal the result of that environment's own operations "
+            "slot, add a filter, add a tag, replace a built-in tag under its own name. Every result must equal the result of that environment's own operations "
             "run alone (every sixteenth history: in a pristine forked process; the others: re-run in-process after clearing "
             "the lexer/parser memos, every parsed source carrying a process-unique text nonce so that a cache keyed by "
             "source text cannot make the two passes agree by accident). "
